@@ -347,7 +347,7 @@ func (ev *evaluator) Evaluate(cases []evalCase, chunk int) map[string]*evalResul
 			if len(a.DanglingRefs) > 0 {
 				res.Fails[ckRef] = "unresolvable inside the document: " + strings.Join(a.DanglingRefs, " , ")
 			}
-			if res.Judged {
+			if res.Judged && a.MetaOK {
 				r.Count("instances_validated", int64(len(insts)))
 				for i, ir := range a.InstanceResults {
 					if ir.OK {
@@ -359,7 +359,7 @@ func (ev *evaluator) Evaluate(cases []evalCase, chunk int) map[string]*evalResul
 					res.Fails[ckInst] = fmt.Sprintf("value %d: %s", i, ir.Err)
 					break
 				}
-			} else {
+			} else if !res.Judged {
 				r.Count("instance_checks_skipped_no_finite_value", 1)
 			}
 			// names
